@@ -22,6 +22,9 @@ TAGS = {
     3: 'Workflow(builder) graph differs from model', 4: 'input_tasks / output_tasks / get_upstream_tasks differ from model',
     5: 'workflow prepared by execute_workflow differs from model', 6: 'as_dask_dict differs from model',
     7: 'value returned by execute_workflow differs from model', 8: 'call log differs from model',
+    9: 'optimize.py _scatter_computation output differs from model',
+    10: 'optimize.py: the optimized dict is not the scattered dict after the inline steps read off it, a step is not a '
+        'legal fuse step, or fuse renamed a key',
     11: 'execute_workflow result is not the sequential evaluation of the declared workflow '
         '(static inputs, then predecessor results in the order the predecessors entered the workflow)',
     12: 'a task function was not called exactly once',
@@ -30,19 +33,17 @@ TAGS = {
     15: 'as_dask_dict lists predecessor keys in an order different from the node order',
     16: 'another scheduler (synchronous / 1 worker / 8 workers / the optimized dict / call_workflow with a recording '
         'client) gives a different result or number of calls',
-    207: 'guard: an alias name made up by fuse is mentioned by a value',
     17: 'as_dask_dict does not have one distinct key per task (with exactly the output task under results)',
     20: 'get_upstream_tasks does not list exactly the strict ancestors',
     19: 'the dict optimized for dask.distributed does not evaluate to the same result with the same calls',
 }
 CORR = (1, 2, 3, 4, 5, 6, 7, 8, 9, 10)
 ORACLE = (11, 12, 13, 14, 15, 16, 17, 19, 20)
-# guard tag -> (finding id, oracle tags it explains).  An oracle failure is excused only when the faithful model explains it
-# (no correspondence tag), the guard conjunct is false on that input and the finding is listed open.
-# (C17-CONTEXT-REORDERS-PREDECESSORS fixed in /repo 4400919, C17-STATIC-KEY and C17-STATIC-CALLABLE-TUPLE in d3e6e19; tags 201,
-# 202, 203 only describe the input distribution.)
-GUARD_FINDING = {207: 'C17-FUSE-ALIAS-COLLISION'}
-GUARD_EXPLAINS = {207: (16, 19)}
+# No open finding is left (C17-CONTEXT-REORDERS-PREDECESSORS fixed in /repo 4400919, C17-STATIC-KEY and
+# C17-STATIC-CALLABLE-TUPLE in d3e6e19, C17-FUSE-ALIAS-COLLISION in c89db96): every oracle failure is a VIOLATION.
+# Tags 201, 202, 203 only describe the input distribution.
+GUARD_FINDING = {}
+GUARD_EXPLAINS = {}
 
 
 # ------------------------------------------------------------------ generator
@@ -862,7 +863,6 @@ def run(ctx):
         'static_input_with_callable_tuple_quoted': sum(1 for v in verdicts if 202 in v),
         'context_predecessor_before_plain_one': sum(1 for v in verdicts if 203 in v),
         'not_single_sink': sum(1 for v in verdicts if 204 in v),
-        'guard_alias_unmentioned_false': sum(1 for v in verdicts if 207 in v),
         'cyclic': sum(1 for v in verdicts if 205 in v),
         'ops_hist': {k: sum(1 for s in specs for o in s['ops'] if o[0] == k)
                      for k in ('add', 'replace', 'insert', 'plus', 'wplus', 'sink', 'sinkto', 'copy', 'ctx')},
